@@ -101,6 +101,9 @@ func streamOrder(seed uint64, n int, variant string) (*Summary, error) {
 		if variant == "noposts" || (variant == "" && i%2 == 0) {
 			g.NoPosts = true
 		}
+		if i%4 == 3 {
+			g.Pre = true // Preprocess schemas as fields: what a Preprocess node does must not depend on its siblings' order either
+		}
 		c := g.Case(i)
 		ar, nposts := countStructArity(c.Schema)
 		if ar < 2 {
